@@ -9,6 +9,10 @@ COMMON_NOTE = ("Trusted base: rustc/cargo 1.80.1, serde/serde_json, syn, python 
                "see DESIGN.md section 4 'Outside' for what the bound leaves open.")
 
 CHECKS = {
+ "C04": dict(
+  text="Exhaustive grammar of serde-derivable Rust definitions instead of random universes: field types (6 scalars; Option/Vec/[_;2]/Box/BTreeMap/tuple of scalars; references to a second type), containers (named struct, tuple/newtype/unit struct, enums under all four taggings with every multiset of <=3 variant kinds), attribute features (rename_all x3, container/field/variant rename, default, deny_unknown_fields, skip_serializing_if) with <=k deviations, fixed-length-array variants in both orders, two-type universes for every outer x inner kind. The real schemars derives the schemas; the real typify-impl generates T' by both ingestion routes; compiled T' deserialises every sample value (full product of 2 values per field type) and the original crate reads back what T' wrote and compares with the original value.",
+  design="DESIGN.md 4/C04", technique="exhaustive grammar enumeration; end-to-end execution Rust -> schemars -> typify -> rustc -> serde on every sample value; differential oracle against the original type",
+  note="Generics, lifetimes, flatten, with, remote derive, >3 variants and nesting depth >2 are outside the grammar; schemars 0.8.22 default settings. Samples the original type cannot round-trip itself are excluded (counted). " + COMMON_NOTE),
  "C12": dict(
   text="Every document of the depth-2 space, of C07's recursion graphs and of a 'diamond' family (a definition outside a cycle reaching it through two children) is converted by the real parser + typify-impl from every key-order variant of its text (all permutations of the keys of every object with <=4 keys, rotations and reversal otherwise, at <=1 (quick) / <=2 (thorough) object nodes at a time) and three whitespace styles; to_stream() is called twice around an iter_types() walk; and the conversion is repeated in fresh processes under an LD_PRELOAD getrandom interposer for hash seeds 0..7 / 0..31. Oracle: byte-identical tokens.",
   design="DESIGN.md 4/C12", technique="bounded exhaustive enumeration of input encodings on the implementation; enumerated hash seeds in fresh processes via getrandom interposition (seed leg not exhaustive, reported separately)",
